@@ -372,7 +372,49 @@ def chk_badtype(case, acc, seed):
     acc.case(case, outcome='badtype')
 
 
-DISPATCH = {'samenum': chk_same_numbers, 'valhist': chk_value_history, 'binary': chk_binary, 'commute': chk_commute, 'unitinv': chk_unit_invariance, 'scalar': chk_scalar, 'badtype': chk_badtype}
+def chk_defaults(case, acc, seed):
+    """the operator forms and Spectrum.sample with their documented defaults (sampling='min', method='linear', fill_value=0,
+    waveunit='nm') are the explicit calls; sampling outside the data gives the fill value, in any wavelength unit"""
+    n1, n2, u = case['pair'][0], case['pair'][1], case['unit']
+    for opn in OPS:
+        a, b = make(n1, u, seed), make(n2, u, seed)
+        a2, b2 = make(n1, u, seed), make(n2, u, seed)
+        try:
+            with np.errstate(all='ignore'):
+                r_op = guarded(lambda: OPS[opn](a, b))
+                r_ex = guarded(lambda: getattr(a2, opn)(b2, sampling='min', method='linear', fill_value=0))
+        except Exception as e:
+            acc.violation(f'defaults:raises:{type(e).__name__}', dict(case, op=opn), repr(e))
+            continue
+        if not (ac(r_op.wave, r_ex.wave, rtol=1e-12) and ac(r_op.value, r_ex.value, rtol=1e-12, equal_nan=True)):
+            acc.violation(f'defaults:operator:{opn}', dict(case, op=opn), 'a <op> b differs from a.<op>(b, sampling=\'min\', method=\'linear\', fill_value=0)')
+    s0 = make(n1, u, seed)
+    g_nm = np.array(GRIDS[n1], dtype=float)
+    v = np.asarray(s0.value, float)
+    probe_nm = np.concatenate([[g_nm[0] - 50, g_nm[0] - 1e-3], (g_nm[:-1] + g_nm[1:]) / 2, g_nm, [g_nm[-1] + 1e-3, g_nm[-1] + 70]])
+    inside = (probe_nm >= g_nm[0]) & (probe_nm <= g_nm[-1])
+    for wu in UNITS:
+        for fill, kw in ((0.0, {}), (2.5, {'fill_value': 2.5})):
+            s1 = make(n1, u, seed)
+            try:
+                got = np.asarray(s1.sample(probe_nm / TO_NM[wu], waveunit=wu, **kw) if wu != 'nm' or kw else s1.sample(probe_nm), float)
+            except Exception as e:
+                acc.violation(f'sample:raises:{type(e).__name__}', dict(case, waveunit=wu), repr(e))
+                continue
+            exp = np.where(inside, np.interp(probe_nm, g_nm, v), fill)
+            # a probe that a unit conversion moves across an end of the range may take either value
+            edge = (np.abs(probe_nm - g_nm[0]) < 1e-9 * g_nm[0]) | (np.abs(probe_nm - g_nm[-1]) < 1e-9 * g_nm[-1])
+            ok = np.isclose(got, exp, rtol=1e-9, atol=1e-12) | (edge & np.isclose(got, fill))
+            if got.shape != exp.shape or not np.all(ok):
+                k = int(np.argmin(ok)) if got.shape == exp.shape else -1
+                acc.violation(f'sample:value:{"own-unit" if wu == u else "other-unit"}:{"default-fill" if not kw else "fill"}', dict(case, waveunit=wu, fill=fill),
+                              f'sample at {probe_nm[k]} nm (given in {wu}) = {got[k] if k >= 0 else got.shape}, expected {exp[k] if k >= 0 else exp.shape}')
+            acc.transitions += 1
+    acc.cls('defaults')
+    acc.case(case, outcome='defaults')
+
+
+DISPATCH = {'defaults': chk_defaults, 'samenum': chk_same_numbers, 'valhist': chk_value_history, 'binary': chk_binary, 'commute': chk_commute, 'unitinv': chk_unit_invariance, 'scalar': chk_scalar, 'badtype': chk_badtype}
 
 
 DISPATCH['histop'] = histories.chk_case
@@ -413,6 +455,9 @@ def t_scalar(arg, acc):
                     acc.transitions += 1
                     chk_scalar({'kind': 'scalar', 'name': name, 'unit': unit, 'op': opn, 'other': kind}, acc, arg['seed'])
     chk_badtype({'kind': 'badtype'}, acc, arg['seed'])
+    for pair in (('A', 'partial'), ('A', 'nested'), ('nonuniform', 'A'), ('A', 'disjoint')):
+        for unit in UNITS:
+            chk_defaults({'kind': 'defaults', 'pair': pair, 'unit': unit}, acc, arg['seed'])
     for opn in ('add', 'multiply', 'subtract'):
         for sampling in ('min', 'left', 'right'):
             for fill in (0, 1):
@@ -439,7 +484,7 @@ def run(tier, seed, acc, procs=None):
         'assumptions': ['reference: piecewise-linear interpolation inside an operand range, fill outside, operator applied point by point',
                         'spline methods are judged at grid points that coincide with operand samples',
                         'grid points that coincide with a range end only up to rounding are not judged; one extra grid interval is tolerated'],
-        'require': {'same-numbers': 10, 'value-history': 30, 'mixed-units': 1000, 'same-unit': 500, 'nm-only': 100, 'scalar': 100, 'commute': 50},
+        'require': {'same-numbers': 10, 'value-history': 30, 'mixed-units': 1000, 'same-unit': 500, 'nm-only': 100, 'scalar': 100, 'commute': 50, 'defaults': 12},
     }
 
 
